@@ -2,6 +2,7 @@
 import sys
 
 from sa import report, effects as E, rules_registry as RR
+from sa import rules_extra as RX
 
 
 def run(ctx, repo):
@@ -25,7 +26,7 @@ def run(ctx, repo):
     rm = RR.model(repo)
     ctx.extra['registries'] = {n: [w.func.qualname for w in r.writers] for n, r in rm.regs.items()}
     ctx.extra['registrations_folded'] = len(rm.registrations)
-
+    RX.r_cow_all_paths(ctx, repo)
 
 if __name__ == '__main__':
     sys.exit(report.main('C10', 'proof', run))
